@@ -180,3 +180,39 @@ TARGETS = {
     "cusparse": {"solver": "cvode", "method": "cusparse", "device": "gpu", "dir": "cvode_cusparse"},
     "odeint": {"solver": "odeint", "method": "rosenbrock4", "device": "cpu", "dir": "odeint_rosenbrock4"},
 }
+
+
+def render_cli(name, files, init_args, tdir, render_args=("--force",), timeout=900):
+    """Drive the real command line: `naunet init <options>` then `naunet render` in a
+    fresh directory <work>/<tdir>; returns a Project whose only target is tdir."""
+    ensure_venv()
+    _counter[0] += 1
+    work = os.path.join(scratch_root(), f"c{_counter[0]:04d}_{re.sub(r'[^A-Za-z0-9_]+', '_', name)[:40]}")
+    pdir = os.path.join(work, tdir)
+    os.makedirs(pdir)
+    for f in files:
+        with open(os.path.join(pdir, f["name"]), "w") as fh:
+            fh.write(f["content"])
+    env = dict(os.environ, TQDM_DISABLE="1", PYTHONHASHSEED="0", NAUNET_VERIF="1")
+    env.pop("PYTHONPATH", None)
+    launcher = "import sys; from naunet.console import main; sys.exit(main())"
+    t0 = time.time()
+    log = ""
+    meta = {"ok": True, "targets": {tdir: {"ok": True}}}
+    for args in (["init", "--no-interaction", *init_args], ["render", "--no-interaction", *render_args]):
+        try:
+            r = subprocess.run([PY, "-c", launcher, *args], capture_output=True, text=True, timeout=timeout, env=env, cwd=pdir)
+        except subprocess.TimeoutExpired:
+            meta = {"ok": False, "error": f"naunet {args[0]} timed out", "targets": {}}
+            break
+        log += r.stdout[-1500:] + r.stderr[-1500:]
+        if r.returncode != 0:
+            meta = {"ok": False, "error": f"naunet {args[0]} exited with {r.returncode}: {(r.stderr or r.stdout)[-600:]}", "targets": {tdir: {"ok": False, "error": (r.stderr or r.stdout)[-600:]}}}
+            break
+    meta["log"] = log[-3000:]
+    cfg = os.path.join(pdir, "naunet_config.toml")
+    if os.path.exists(cfg):
+        meta["config_text"] = open(cfg).read()
+    if meta["ok"] and not os.path.isdir(os.path.join(pdir, "src")):
+        meta = {"ok": False, "error": "render produced no src directory: " + log[-400:], "targets": {tdir: {"ok": False}}}
+    return Project(name, {"cli": {"init": list(init_args), "render": list(render_args)}}, work, meta, time.time() - t0)
